@@ -81,7 +81,7 @@ class CuckooDriver:
         self.K = CountingCuckooFilter if self.counting else CuckooFilter
         self.Full = CuckooFilterFullError
         self.hf = simple_hash_by_name(case["hash"])
-        self.hf_eff = self.hf or fnv_1a
+        self.hf_eff = self.hf if self.hf is not None else fnv_1a
         self.pool = [dk(k) for k in case["pool"]]
         self.cfg = dict(capacity=case["cap"], bucket_size=case["bs"], max_swaps=case["swaps"], expansion_rate=case["rate"],
                         auto_expand=case["auto"], finger_size=case["fs"], hash_function=self.hf)
@@ -396,7 +396,7 @@ def case_strategy(tier, classes=("cuckoo", "counting"), allow_reload=False, max_
         return {
             "cls": cls, "cap": cap, "bs": bs, "swaps": swaps,
             "fs": draw(st.sampled_from([1, 2, 3, 4])), "rate": draw(st.sampled_from([2, 2, 3])),
-            "auto": draw(st.booleans()), "hash": draw(st.sampled_from(["default", "narrow", "narrow16", "sha", "clustered", "clustered"])),
+            "auto": draw(st.booleans()), "hash": draw(st.sampled_from(["default", "narrow", "narrow16", "sha", "clustered", "clustered", "falsy_sha"])),
             "pool": pool, "tape": draw(st.lists(st.integers(0, 5), max_size=60)),
             "ops": oplist, "enum_last": enum,
         }
